@@ -23,6 +23,7 @@ type Obl struct {
 	Pos     token.Position
 	Extra   []string // extra assertions local to this obligation
 	Inputs  []string // names of SMT constants that are the function's inputs (for models)
+	Results []TV     // SMT terms of the returned values (post obligations)
 	Short   bool     // not in the baseline and only panic-freedom: one short solver attempt
 	enc     *Enc
 }
